@@ -77,6 +77,10 @@ CLAIMED = {
    text="Graph and StableGraph histories with node and edge vacancies are followed by serde round trips through JSON and bincode, into the same type and across Graph <-> StableGraph, by 16 kinds of structural JSON mutation (dropped / retyped fields, endpoints out of range / at max / at a declared hole, duplicated, unsorted or out-of-bound holes, added / removed nodes, nulled / truncated / duplicated edges, flipped edge property) and 5 kinds of byte mutation of bincode streams, and by further use of whatever came back. TLC validates against MGTrace.tla: the JSON document equals the wire format WireDoc of the abstract state; an unmodified stream loads to the identical graph (same indices, vacancies up to the bounds; a stream with vacancies is refused as a Graph); a mutated stream gives Err or a well-formed graph (AdoptOK) whose later behaviour stays inside GraphAbs/StableAbs; a panic is never accepted.",
    note="Trusted: TLC incl. its Json reader on the transcoded document, harness recorder. Weights i32; index widths u8/u16/u32/Ix4/Ix7; bincode bytes opaque. GraphMap round trips are in the C03 driver. Fixed: edge incident to a declared hole accepted. Recorded finding: a completely full graph (max() elements) does not round-trip; the repair contradicts the existing test from_json_edges_too_big.",
    design="4/C17", technique="TLA+ spec + trace validation of real executions"),
+ "C18": dict(
+   text="graph6: graph6_string() of Graph, StableGraph, GraphMap, MatrixGraph and Csr (fresh / shuffled / garbage-then-remove histories) must equal Graph6.tla - an independent TLA+ definition of the format (header N(n) short and long, column-major upper triangle, 6-bit big-endian groups +63) - applied to the adjacency in node-iteration order; from_graph6_string into all five types must rebuild exactly the encoded graph, the input strings coming from a harness encoder that the oracle first checks against Graph6.tla; header arithmetic is asserted up to 258047. Dot: the printed text for all Config subsets x Display/Debug/alternate with adversarial weight strings is tokenized and parsed by DotLex.tla (quoted strings with backslash escapes, statements node / edge / attribute): exactly one node statement per node index, one edge statement per edge with the right connector and endpoints, labels present as configured and containing the formatted weight after unescaping - so no weight ended its label early or injected a statement.",
+   note="Trusted: TLC, Graph6.tla, DotLex.tla, Rust's own formatter for the expected label text. graph6 orders: exhaustive 0..4, random 5..12, 61..70 around the header switch; Dot graphs up to 4 nodes / 5 edges. Encode/decode fidelity is a weak fit for the technique (stated in DESIGN.md) but both halves have a crisp function / automaton reading.",
+   design="4/C18", technique="TLA+ oracle specs (format definition, lexer/parser automaton) evaluated by TLC on recorded outputs"),
  "C19": dict(
    text="TLC exhaustively model-checks UnionFindAbs (equivalence = connectivity generated by the unions; MaxN<=4/5) and UnionFindImpl (parent/rank forest invariants, refinement to Abs); a TLC-generated transition cover of UnionFindImpl plus exhaustive and seeded random histories (all index widths, u8 to 256 elements, out-of-range arguments, panicking variants) are executed on the real UnionFind and every recorded trace is validated by TLC against UnionFindAbs.",
    note="Trusted: TLC + CommunityModules Json, the harness recorder. Exhaustive within MaxN only; beyond, exploration of recorded histories. Memory safety of get_unchecked not decided (only the index arithmetic guarding it).",
